@@ -5,4 +5,4 @@ Extraction "model_C07.ml" getSampledIndex getSetIndex getDataFrameIndex getIndex
   index_ok spec_equal x_sampled x_int x_ticks n_count fgt flt fle feq ofZ fis_finite fis_nan
   positionToIndex_vec positionToIndex_one scaling_or_incompatible is_none_unit fmul fone
   sampled_pair set_pair range_pair df_pair sampled_index1 sampled_pair2 vec_overload range_index_le range_pair2 keep_valid
-  position_in_range range_pair2_checks_order_now.
+  position_in_range range_pair2_checks_order_now or_oob.
